@@ -64,6 +64,16 @@ def params_of(cls):
     return out
 
 
+ARG_NAME_EXCEPTIONS = {"acct_multi_session_id_avp": "AcctMultiSessionIdAVP"}
+
+
+def convention_class(arg):
+    """The dictionary class an argument name denotes, independently of the class's own tables: the library
+    names every constructor argument after its AVP (snake_case of the class name without the AVP suffix); the
+    single exception in the published tree is frozen above."""
+    return ARG_NAME_EXCEPTIONS.get(arg) or "".join(p.capitalize() for p in arg.split("_")) + "AVP"
+
+
 def avp_class_for(cls, name):
     c = cls.mandatory.get(name) or cls.optionals.get(name)
     return c.__name__ if c is not None else None
@@ -189,6 +199,9 @@ def judge(rep, plan):
             if acn is not None and type(obj).__name__ != acn:
                 errs.append(("order-or-class", f"AVP {i} is {type(obj).__name__}, argument '{name}' maps to {acn}"))
                 break
+            if acn is not None and type(obj).__name__ != convention_class(name):
+                errs.append((f"argument-class:{name}", f"argument '{name}' is carried by {type(obj).__name__}, the "
+                                                       f"corresponding dictionary class is {convention_class(name)}"))
             if a is not None:
                 try:
                     if obj.dump() != a.expected():
@@ -286,6 +299,14 @@ def table_facts(rep):
         n += 1
         if key not in REFCMDS:
             raise core.HarnessError(f"typed class {key} has no row in vk/ref/refcmds.json")
+    for key, cls in classes.items():
+        for table_name in ("mandatory", "optionals"):
+            for arg, klass in getattr(cls, table_name).items():
+                n += 1
+                if klass.__name__ != convention_class(arg):
+                    rep.violation(f"C09:{key}:argument-table:{arg}",
+                                  f"{key}.{table_name}['{arg}'] is {klass.__name__}, the argument denotes "
+                                  f"{convention_class(arg)}", {"part": "table", "cls": key})
     for key, ref in REFCMDS.items():
         n += 1
         if key not in classes:
